@@ -31,6 +31,9 @@ def run_histories(o, ctx, tier, seed, tag, n_quick, n_thorough, flt=None, max_he
     # read time-outs: the client stalls inside a body (no model counterpart: the model has no clock)
     for line, exp, meta in G.stall_cases(r, stalls if t == "quick" else stalls * 4):
         lines.append(line); exps.append(exp); metas.append(meta)
+    if tag == "c07":
+        for line, exp, meta in G.chunk_tail_cases(r, 45 if t == "quick" else 400):
+            lines.append(line); exps.append(exp); metas.append(meta)
     impl = C.run_sharded(ctx["kimpl"], lines, shards=min(C.NCPU, 16))
     # the Lean model of handle_connection replays the same script (each socket read sees at most the segment in flight)
     model = C.run_sharded(ctx["kmodel"], [l if " rto=" not in l else "#" for l in lines]) if ctx.get("have_model") else None
